@@ -84,6 +84,20 @@ pub fn plan(tier: &str, seed: u64) -> Vec<Batch> {
             lo += chunk;
         }
     }
+    // an attacker exchanging the link between the ownership check and the use (every window), and two
+    // threads racing through the first use (every switch point): sysctl on
+    {
+        let mut u1 = UniCfg::e();
+        u1.psym = Some(1);
+        v.push(Batch { check: "C15".into(), phase: "swap".into(), uni: u1.clone(), seed, lo: 0, hi: 4, fresh: false, tier: tier.into(), extra: Value::Null });
+        let total = 2 * CF_MAX_STEP;
+        let stride = if tier == "thorough" { 1 } else { 2 };
+        let mut lo = 0;
+        while lo < total {
+            v.push(Batch { check: "C15".into(), phase: "first-use-race".into(), uni: u1.clone().workers(2), seed, lo, hi: (lo + 40).min(total), fresh: true, tier: tier.into(), extra: json!({"stride": stride}) });
+            lo += 40;
+        }
+    }
     // the kernel backend never consults the emulation: its cells must all be allowed
     // when the machine's own sysctl is 0 and must follow the rule when it is 1
     let mut uk = UniCfg::k();
@@ -185,6 +199,127 @@ fn run_first_use(u: &mut Universe, b: &Batch, idx: u64, st: &mut Stats) {
     }
 }
 
+pub const CF_MAX_STEP: u64 = 240;
+
+fn swap_world() -> WorldSpec {
+    let mut w = WorldSpec::default();
+    w.push(Entry::dir("root").mode(0o755));
+    w.push(Entry::file("root/tgtA/file", "A-TARGET").mode(0o644));
+    w.push(Entry::file("root/tgtB/file", "B-TARGET").mode(0o644));
+    w.push(Entry::dir("root/d").mode(0o1777).own(0, 0));
+    // l: somebody else's link (refused for caller 1000); l2: the caller's own (allowed)
+    w.push(Entry::link("root/d/l", "../tgtA").own(1001, 1001));
+    w.push(Entry::link("root/d/l2", "../tgtB").own(1000, 1000));
+    w
+}
+
+/// the link is exchanged for another one between the resolver's look at it and its use
+fn run_swap(u: &mut Universe, b: &Batch, idx: u64, st: &mut Stats) -> bool {
+    let (path, facade_c) = [("d/l/file", false), ("d/l", false), ("d/l/file", true), ("d/./l/../l/file", false)][idx as usize % 4];
+    let mk = |script: Vec<crate::sup::Dec>| {
+        let mut case = Case::new("C15", "swap", b.uni.clone());
+        case.world = Some(swap_world());
+        let mut o = OpSpec::new(Op::Resolve { path: path.into(), nofollow: false });
+        if facade_c {
+            o = o.c();
+        }
+        case.jobs = vec![vec![OpSpec::new(Op::SetEuid { uid: 1000 }), o, OpSpec::new(Op::SetEuid { uid: 0 })]];
+        case.plan.script = script;
+        case.extra = json!({"dir_mode": "1777", "dir_uid": 0, "link_uid": 1001, "caller": 1000, "position": "swap"});
+        case
+    };
+    let out0 = run_case(u, &mk(vec![]), &mut crate::sup::NoHooks, false);
+    if let Some(e) = &out0.harness_error {
+        st.harness_errors.push(format!("swap {idx}: {e}"));
+        return false;
+    }
+    let wins: Vec<usize> = out0.trace.iter().filter(|e| e.lib && e.op == Some(1) && e.nr != crate::seam::HYPERCALL_NR && e.nr != libc::SYS_futex).map(|e| e.step).collect();
+    for w in wins {
+        for back in [false, true] {
+            let mut script = vec![crate::sup::Dec { step: w, attack: vec![crate::world::Mutation::Exchange { a: "root/d/l".into(), b: "root/d/l2".into() }], ..Default::default() }];
+            if back {
+                script.push(crate::sup::Dec { step: w + 1, attack: vec![crate::world::Mutation::Exchange { a: "root/d/l".into(), b: "root/d/l2".into() }], ..Default::default() });
+            }
+            let case = mk(script);
+            let out = run_case(u, &case, &mut crate::sup::NoHooks, false);
+            if let Some(e) = &out.harness_error {
+                st.harness_errors.push(format!("swap {idx}@{w}: {e}"));
+                return false;
+            }
+            st.evaluations += 1;
+            st.merge_runout(&out);
+            st.nontrivial.insert(case.hash() ^ ((w as u64) << 1 | back as u64));
+            st.count("swap.windows", 1);
+            if let Some(r) = out.records.iter().find(|r| matches!(r.spec.op, Op::Resolve { .. })) {
+                st.count(&format!("swap.outcome.{}", r.outcome.class().split(':').take(3).collect::<Vec<_>>().join(":")), 1);
+                if let (Outcome::Fd(_), Some(f)) = (&r.outcome, &r.facts) {
+                    if f.path.contains("/tgtA") {
+                        let v = mk_violation(&case, &out, "C15", "follows-where-kernel-refuses:link-exchanged-during-the-lookup", "resolve", format!("the lookup followed d/l -> ../tgtA (owned by uid 1001 in a sticky world-writable directory, caller uid 1000, sysctl=1) and returned {}; the attacker exchanged d/l with the caller's own link d/l2 at step {w}", f.path));
+                        st.violation(&v);
+                    }
+                }
+            }
+            if u.poisoned {
+                return false;
+            }
+        }
+    }
+    true
+}
+
+/// two threads of a fresh process race through the first symlink lookup (where the sysctl is read
+/// and cached): one switch from thread 0 to thread 1 at every step
+fn run_first_use_race(u: &mut Universe, b: &Batch, idx: u64, st: &mut Stats) {
+    let stride = b.extra["stride"].as_u64().unwrap_or(1);
+    let case = if b.phase == "replay" {
+        match Case::from_json(&b.extra["case"]) {
+            Some(c) => c,
+            None => return,
+        }
+    } else {
+        if idx % stride != (b.seed % stride) {
+            return;
+        }
+        let variant = (idx / CF_MAX_STEP) as usize;
+        let step = (idx % CF_MAX_STEP) as usize;
+        let c = fu_cell(variant);
+        let mut case = Case::new("C15", "first-use-race", b.uni.clone());
+        case.fresh = true;
+        case.world = Some(world_for(&c));
+        let job = |_: usize| vec![OpSpec::new(Op::SetEuid { uid: c.caller }), OpSpec::new(Op::Resolve { path: "d/l/file".into(), nofollow: false }), OpSpec::new(Op::SetEuid { uid: 0 })];
+        case.jobs = vec![job(0), job(1)];
+        case.plan.script = vec![crate::sup::Dec { step, switch_to: Some(1), ..Default::default() }];
+        case.extra = json!({"dir_mode": "1777", "dir_uid": c.dir_uid, "link_uid": c.link_uid, "caller": c.caller, "position": "intermediate", "variant": variant, "switch_step": step});
+        case
+    };
+    let variant = case.extra["variant"].as_u64().unwrap_or(0) as usize;
+    let allowed = kernel_rule(1, &fu_cell(variant));
+    let out = run_case(u, &case, &mut crate::sup::NoHooks, false);
+    if let Some(e) = &out.harness_error {
+        st.harness_errors.push(format!("first-use-race {idx}: {e}"));
+        return;
+    }
+    st.merge_runout(&out);
+    if out.switches == 0 {
+        st.count("first_use_race.switch_point_beyond_the_run", 1);
+        return;
+    }
+    st.evaluations += 1;
+    st.nontrivial.insert(case.hash());
+    st.count("first_use_race.schedules", 1);
+    for r in out.records.iter().filter(|r| matches!(r.spec.op, Op::Resolve { .. })) {
+        let bad = match &r.outcome {
+            Outcome::Fd(_) if !allowed => Some(("follows-where-kernel-refuses:first-use-race", format!("thread {} followed a link the kernel rule refuses (sysctl=1) while another thread was inside the first use: {}", r.thread, case.extra))),
+            Outcome::Err { errno, .. } if allowed && *errno == libc::EACCES => Some(("refuses-where-kernel-allows:first-use-race", format!("thread {} got EACCES for a link the kernel rule allows: {}", r.thread, case.extra))),
+            _ => None,
+        };
+        if let Some((clause, detail)) = bad {
+            let v = mk_violation(&case, &out, "C15", clause, "resolve", detail);
+            st.violation(&v);
+        }
+    }
+}
+
 pub fn world_for(c: &Cell) -> WorldSpec {
     let mut w = WorldSpec::default();
     w.push(Entry::dir("root").mode(0o755));
@@ -215,6 +350,25 @@ fn machine_sysctl() -> u32 {
 }
 
 pub fn run(u: &mut Universe, b: &Batch, st: &mut Stats) {
+    if b.phase == "first-use-race" || (b.phase == "replay" && b.extra["case"]["phase"].as_str() == Some("first-use-race")) {
+        for idx in b.lo..b.hi {
+            run_first_use_race(u, b, idx, st);
+        }
+        return;
+    }
+    if b.phase == "swap" {
+        if let Err(e) = warm_up(u) {
+            st.harness_errors.push(format!("warm-up: {e}"));
+            return;
+        }
+        for idx in b.lo..b.hi {
+            coord::progress(idx);
+            if !run_swap(u, b, idx, st) {
+                return;
+            }
+        }
+        return;
+    }
     if b.phase == "first-use-fault" || (b.phase == "replay" && b.extra["case"]["phase"].as_str() == Some("first-use-fault")) {
         for idx in b.lo..b.hi {
             run_first_use(u, b, idx, st);
@@ -307,7 +461,7 @@ pub fn finalise(tier: &str, seed: u64, res: coord::CheckResult) -> i32 {
         tier,
         seed,
         "fault_enumeration",
-        "a finite matrix enumerated completely: directory mode {plain, sticky, world-writable, sticky+world-writable} x directory owner x link owner x caller uid (each from {0,1000,1001}; the caller thread switches its effective uid with a raw per-thread setresuid) x link position {trailing, intermediate} x facade x sysctl value {0,1} substituted at the seam in an E universe (one universe per value, since the library caches it per process); oracle: a transcription of may_follow_link() from fs/namei.c; the K universe runs the same cells against the machine's real sysctl; first-use-fault: in a fresh process (sysctl=1) one errno from {EMFILE, ENOMEM, EIO, EACCES} is injected at every system call of the *first* lookup - the one during which the library reads and caches the sysctl - for a refused and an allowed cell, with the sysctl on and off, and two fault-free lookups follow: a refused link is never followed and the fault-free lookups obey the rule exactly (quick: every second placement; thorough: all); distinct = every cell is a distinct configuration",
+        "a finite matrix enumerated completely: directory mode {plain, sticky, world-writable, sticky+world-writable} x directory owner x link owner x caller uid (each from {0,1000,1001}; the caller thread switches its effective uid with a raw per-thread setresuid) x link position {trailing, intermediate} x facade x sysctl value {0,1} substituted at the seam in an E universe (one universe per value, since the library caches it per process); oracle: a transcription of may_follow_link() from fs/namei.c; the K universe runs the same cells against the machine's real sysctl; first-use-fault: in a fresh process (sysctl=1) one errno from {EMFILE, ENOMEM, EIO, EACCES} is injected at every system call of the *first* lookup - the one during which the library reads and caches the sysctl - for a refused and an allowed cell, with the sysctl on and off, and two fault-free lookups follow: a refused link is never followed and the fault-free lookups obey the rule exactly (quick: every second placement; thorough: all); swap: the link (refused for the caller) is exchanged with the caller's own link at every window of the lookup (and back one window later): the refused link's target is never returned; first-use-race: two threads of a fresh process run the first lookup, one switch from thread 0 to thread 1 at every step; distinct = every cell is a distinct configuration",
         res,
         extra,
         vec!["the oracle is a five-line transcription of the kernel rule; the real kernel enforces it only when this machine's fs.protected_symlinks is 1 (recorded under machine_sysctl)".into()],
